@@ -179,6 +179,7 @@ Proof.
     repeat split; auto; discriminate.
   - (* outer *)
     destruct ins as [|[| |d1 i1| |] [|[| |d2 i2| |] [|? ?]]]; try discriminate.
+    match type of Hd with (if ?c then Err _ else _) = _ => destruct c; try discriminate end.
     match type of Hd with match mk_dspace ?a ?t with _ => _ end = _ =>
       destruct (mk_dspace a t) as [rs'|] eqn:Em; try discriminate end.
     apply mk_dspace_ok in Em as [-> Hn]. inversion Hd; subst. split; [exact Hr|].
